@@ -202,8 +202,8 @@ def configs(tier):
     for gi, (aw, dw, gran) in enumerate(geoms):
         gb = log2(dw // gran)
         for fi, dfeat in enumerate(feats):
-            if not quick and (fi % 4) != (gi % 4) and dfeat not in ((), ALL):
-                continue      # thorough: all 64 subsets are spread over the geometries
+            if not quick and gi >= 4 and (fi % 4) != (gi % 4) and dfeat not in ((), ALL):
+                continue      # thorough: all 64 subsets on the first four geometries, spread over the others
             pol = policies[(fi + gi) % len(policies)]
             pol2 = policies[(fi + gi + 3) % len(policies)]
             if aw == 0:
